@@ -108,8 +108,12 @@ def bp_q(prop, kind, n, B=None, bw=None, cap=None, to=3600):
     dflt = (n + 2) if not B else max(n, B) + 2
     ebits = 33 if kind in (0, 2) else 65
     uf = {"varintBP128*": [["b < bitWidth", ebits], ["while \\(value\\)", ebits], ["", dflt]], "bitsneeded": 66, "varintTagged*": 9}
-    return Query(nm, "array/bp128.c", ["varintBP128.c"] + T, defs=d, checks="mem", unwind=max(60, n * 8 + 40), unwind_fn=uf, timeout=to,
-                 weight=2 * n + (4 if B else 0))
+    q = Query(nm, "array/bp128.c", ["varintBP128.c"] + T, defs=d, checks="mem", unwind=max(60, n * 8 + 40), unwind_fn=uf, timeout=to,
+              weight=2 * n + (4 if B else 0))
+    if B and kind in (1, 3):
+        q.mem_gb = 20   # the scaled 64-bit instances build multi-GB formulas: scheduled through the heavy-query memory budget
+        q.weight = 40
+    return q
 
 
 def codec_queries(prop, tier):
@@ -224,7 +228,7 @@ def codec_queries(prop, tier):
                 to = 900 if q else 5400
                 if prop == 13:
                     qs.append(bp_q(13, kind, n, B=4, bw=bw, cap=n - 1, to=to))
-                    if not q:
+                    if not q and n - 1 != 4:
                         qs.append(bp_q(13, kind, n, B=4, bw=bw, cap=4, to=to))
                 else:
                     qs.append(bp_q(prop, kind, n, B=4, bw=bw, to=to))
